@@ -276,6 +276,12 @@ func SolveUnit(r *UnitResult, cfg SolverCfg) {
 			ob.Ms = obMs
 		}
 	}
+	for _, ob := range r.Obs {
+		if ob.Kind == "check" && ob.Result == "" {
+			ob.Result = "unknown"
+			order = append(order, ob)
+		}
+	}
 	// fallback / cross-check
 	var wg sync.WaitGroup
 	sem := make(chan struct{}, 6)
